@@ -97,3 +97,21 @@ PROPS["C15"] = {
     "trusted_base": PKG_TB + ["the nfpm binary is built from the working tree with `go build ./cmd/nfpm` and run in scratch directories; formats of produced files are recognised by magic bytes"],
     "assumptions": [],
 }
+
+CFG_TB = COMMON_TB + [
+    "harness/gen.go: reflection over nfpm.Config (Gen/TypeTree.v), the schema emitted by the freshly built binary and the published one (Gen/Schema.v), the YAML reference block of www/docs/configuration.md via yaml.v3 nodes (Gen/DocConfig.v)",
+    "YAML tokenisation is yaml.v3's (documents reach the model as key trees); merge keys and anchors are outside the modelled envelope",
+]
+PROPS["C16"] = {
+    "level": "proof", "harness": "C16", "driver": "C16", "shrink_field": None, "exhaustive": True,
+    "rule": ("cases = a document with EVERY key of the reflected configuration type set, with an unknown key and a one-edit misspelling injected at every mapping node (exhaustive over positions), generated configurations each with a random injection, "
+             "edge documents (duplicate keys, empty override block, unknown override format, complex keys); one document exercising every string-valued path with ${..} references under 8 environments incl. all passphrase combinations, "
+             "and 20 os.Expand syntax corners; distinct = distinct documents; all count as non-trivial"),
+    "trusted_base": CFG_TB, "assumptions": [],
+}
+PROPS["C17"] = {
+    "level": "proof", "harness": "C17", "driver": "C17", "shrink_field": None, "exhaustive": True,
+    "rule": ("cases = the documents of C16's strict-parsing stream (every key path, every injection position, generated configurations) validated against the emitted schema by the Gallina validator (properties / additionalProperties / required / enum / items / $ref); "
+             "accepted documents must validate and the key structure of schema and parser must agree; distinct = distinct documents; all count as non-trivial"),
+    "trusted_base": CFG_TB, "assumptions": [],
+}
